@@ -13,6 +13,7 @@ rule('C03.10')(c08.arg_mode_bracketed)
 rule('C03.11')(c17.builders_pure)
 rule('C03.12')(c17.copy_on_write)
 rule('C03.13')(c08.mode_reset_on_recycle)
+rule('C03.14')(c02.call_parts)                  # Call combines its parts once each, left to right
 
 # C04: the translation keeps no state between calls
 rule('C04.10')(c20.finalisation)
